@@ -15,6 +15,12 @@ BackToDefault == {<<[op |-> "set", k |-> "verbose", raw |-> r], [op |-> "set", k
            \cup {<<[op |-> "set", k |-> "use_spec_hashes", raw |-> "ryes"], [op |-> "set", k |-> "use_spec_hashes", raw |-> "rno"], [op |-> "get", k |-> "use_spec_hashes"]>>,
                  <<[op |-> "set", k |-> "clean_logs", raw |-> "r0"], [op |-> "get", k |-> "clean_logs"], [op |-> "unset", k |-> "clean_logs"]>>}
 ASSUME \A s \in BackToDefault : PrintT(ToJson([kind |-> "ops", ops |-> s]))
+(* a key that is also the dotted prefix of other keys: unsetting it - set or not, once or twice - concerns only itself *)
+PrefixPairs == {<<"a", "a.b">>, <<"a", "a.bc">>, <<"backend", "backend.slurm.log_mode">>, <<"backend.slurm", "backend.slurm.log_mode">>}
+PrefixFam == {<<[op |-> "set", k |-> pc[2], raw |-> "rmerged"], [op |-> "unset", k |-> pc[1]], [op |-> "get", k |-> pc[2]]>> : pc \in PrefixPairs}
+        \cup {<<[op |-> "set", k |-> pc[2], raw |-> "r42"], [op |-> "set", k |-> pc[1], raw |-> "rhello"], [op |-> "unset", k |-> pc[1]],
+                [op |-> "unset", k |-> pc[1]], [op |-> "get", k |-> pc[2]]>> : pc \in PrefixPairs}
+ASSUME \A s \in PrefixFam : PrintT(ToJson([kind |-> "ops", ops |-> s]))
 
 (* precedence and namespace scenarios *)
 Opt == {"none", "slurm", "sge"}
